@@ -165,7 +165,7 @@ class C19Check(Check):
         "exception types of refusals are not judged, only that the wrapper refuses exactly when the model does",
         "with use_speed_up and a classifier fitted outside the wrapper, predict/predict_freq are not judged (documented degraded mode)",
     ]
-    tiers = {"quick": {"runs": 2400, "wall_cap": 400, "chunk": 30}, "thorough": {"runs": 60000, "wall_cap": 3300, "chunk": 50}}
+    tiers = {"quick": {"runs": 8000, "wall_cap": 600, "chunk": 30}, "thorough": {"runs": 160000, "wall_cap": 3300, "chunk": 50}}
 
     def generate(self, rng: SimRng):
         g = rng.fork("workload")
